@@ -1,7 +1,6 @@
 import Mp.CueFunc
 import Mp.CueFunc2
 import Mp.ProofsRK
-import Mp.FactChecks2
 /-! C14 — property theorems (proved in the imported modules; statements are checked there, axioms audited here). -/
 #print axioms Mp.validOnOk_iff_admits
 #print axioms Mp.every_row_admits_something
@@ -13,8 +12,3 @@ import Mp.FactChecks2
 #print axioms Mp.element_type_of_typed_list
 #print axioms Mp.element_type_of_struct_list
 #print axioms Mp.element_type_after_call
-#print axioms Mp.FactChecks.boolean_rows_covered
-#print axioms Mp.FactChecks.number_rows_covered
-#print axioms Mp.FactChecks.string_rows_covered
-#print axioms Mp.FactChecks.remaining_rows
-#print axioms Mp.FactChecks.returnsBoolean_published
